@@ -39,6 +39,8 @@ func init() {
 			{ID: "R09q", Floor: 1, Doc: "no command of the CLI changes a parser limit for itself: the default bounds are what keeps a crafted length prefix from being allocated (= R19i)", Run: ruleR19i},
 			{ID: "R09r", Floor: 1, Doc: "no reader type beside the audited ones: a new type of the library that declares Read/ReadByte/Seek is where a (0, nil) spin or an unbounded read comes from (= R16n)", Run: ruleR16n},
 			{ID: "R09s", Floor: 1, Doc: "the read methods of the stores allocate no slice of a computed length themselves: the size store.FindCid reports without reading is unchecked (possibly negative, possibly what a crafted length prefix asks for)", Run: ruleR09s},
+			{ID: "R09t", Floor: 1, Doc: "the CLI allocates no slice sized by a length prefix it decoded itself (its own section walks have no size limit because they stream)", Run: ruleR09t},
+			{ID: "R09u", Floor: 8, Doc: "sections are decoded by the framing routines of the pinned shapes, whose CID decoder bounds what it allocates (= R01b)", Run: ruleR01b},
 			{ID: "R09f", Floor: 1, Doc: "singleWidthIndex.Unmarshal: bucket bytes come from an exact-length read of dataLen with its error tested", Run: ruleR09f},
 			{ID: "R09m", Floor: 2, Doc: "the CARv2 payload is read through a reader bounded by the header-declared size that can never run negative or past the source (= R14a)", Run: ruleR14a},
 			{ID: "R09n", Floor: 1, Doc: "a reader that has released its pooled buffer does not touch it again: the field is cleared with the release (polling a drained reader once more must answer io.EOF, not panic in bufio) (= R01m)", Run: ruleR01m},
@@ -650,6 +652,9 @@ var panicTable = map[string]panicDischarge{
 			for _, ci := range calls {
 				// the argument is a zero-length literal
 				arg := ci.Common().Args[0]
+				if iv := immutableInit(arg); iv != nil {
+					arg = iv // a package-level `var empty = []byte{}` that nothing writes
+				}
 				sl, ok := arg.(*ssa.Slice)
 				if !ok {
 					continue
@@ -1305,6 +1310,20 @@ func ruleR09l(c *Ctx, r *Report) {
 			if !ok {
 				return
 			}
+			// `opts := initialOptions`: the starting value is a package-level literal that nothing
+			// writes; its field is the default
+			if ld, isLoad := st.Val.(*ssa.UnOp); isLoad && ld.Op == token.MUL && st.Block() == fn.Blocks[0] {
+				if g, isG := ld.X.(*ssa.Global); isG {
+					for fv, iv := range globalFieldInit[g] {
+						if k, isK := iv.(*ssa.Const); isK && fv.Name() == fld && k.Value != nil && !k.IsNil() {
+							if z, isInt := constInt(k); !isInt || z != 0 {
+								n++
+							}
+						}
+					}
+				}
+				return
+			}
 			fa, ok := st.Addr.(*ssa.FieldAddr)
 			if !ok || !fieldAddrIs(fa, modV2, "Options", fld) {
 				return
@@ -1340,7 +1359,7 @@ func uncheckedAsserts(c *Ctx) map[string]string {
 			if types.Identical(ta.AssertedType, ta.X.Type()) {
 				return
 			}
-			k := fnKey(rootFuncOf(fn)) + " -> " + assertedTypeKey(ta.AssertedType)
+			k := fnKey(rootFuncOf(fn)) + " -> " + pinnedTypeNames(assertedTypeKey(ta.AssertedType))
 			out[k] = c.Pos(ta.Pos())
 		})
 	}
@@ -1376,6 +1395,20 @@ func ruleR09o(c *Ctx, r *Report) {
 		r.Viol(key, got[k], "single-value type assertion that the pinned tree does not have: if the value can be of another dynamic type (an index of the other format, a writer without the method) this panics instead of returning an error")
 	}
 	r.Count("unchecked type assertions in library packages", len(keys))
+}
+
+// pinnedTypeNames rewrites the printed name of a type that moved to another package (typeMoves) or
+// was renamed (typeRenames) back to the name the pinned tree knows it by.
+func pinnedTypeNames(s string) string {
+	for k, v := range typeMoves {
+		pkg, name, _ := strings.Cut(k, "\t")
+		s = strings.ReplaceAll(s, shortPkg(v[0])+"."+v[1], shortPkg(pkg)+"."+name)
+	}
+	for k, v := range typeRenames {
+		pkg, name, _ := strings.Cut(k, "\t")
+		s = strings.ReplaceAll(s, shortPkg(pkg)+"."+v, shortPkg(pkg)+"."+name)
+	}
+	return s
 }
 
 // assertedTypeKey names the asserted type; an interface is named by its method set (method names and
